@@ -12,7 +12,7 @@ def run(ctx):
     ctx.coverage['rule'] = ('random histories (40 ops) over a pool of 3 FlatSets: insert (value, rvalue, hint, range incl. ranges longer than '
                             'the introsort threshold, node), emplace(_hint), erase (key/position/range), lookups, bounds, equal_range, merge, '
                             'extract, swap, copy, move, comparisons, construction/assignment from a vector, steal_vector; comparators '
-                            '{less, greater, coarse mod 5, stateful mod m whose default state differs}; underlying vectors {amc::vector, '
+                            '{less, greater, coarse mod 5, stateful mod m whose default state differs, mix = a different comparator state in every set of the pool}; underlying vectors {amc::vector, '
                             'SmallVector, FixedCapacityVector, std::vector}; three-way comparison impl / Lean model / std::set; '
                             'non-trivial = history contains a bulk path and a merge or node transfer')
     def nontrivial(cfg, lines, obs):
